@@ -296,12 +296,18 @@ use futures::FutureExt;
 // Re-export derive macros for convenient access
 pub use rsactor_derive::{message_handlers, Actor};
 
-use std::{fmt::Debug, future::Future, sync::atomic::AtomicU64, sync::OnceLock};
+#[cfg(not(rsactor_verif))]
+use std::sync::atomic::AtomicU64;
+use std::{fmt::Debug, future::Future, sync::OnceLock};
+#[cfg(rsactor_verif)]
+use verif::sync::AtomicU64;
 
 #[cfg(feature = "deadlock-detection")]
 use std::collections::HashMap;
-#[cfg(feature = "deadlock-detection")]
+#[cfg(all(feature = "deadlock-detection", not(rsactor_verif)))]
 use std::sync::Mutex;
+#[cfg(all(feature = "deadlock-detection", rsactor_verif))]
+use verif::sync::Mutex;
 
 use tokio::sync::{mpsc, oneshot};
 
